@@ -17,17 +17,19 @@ CONSTANTS MaxMS,        \* bound on media sequence numbers explored
           MaxN,         \* window sizes 0..MaxN
           MaxAdvance,   \* the window head/tail may advance by up to this many segments between polls
           MaxPolls,     \* length of the playlist history
-          Vod, Fmp4     \* scenario kind
+          Vod, Fmp4,    \* scenario kind
+          LL, CanSkip   \* Low-Latency server (CAN-BLOCK-RELOAD + preload hint), CAN-SKIP-UNTIL advertised
 
-VARIABLES srv,    \* [ms, n, end]
+VARIABLES srv,    \* [ms, n, end, hint]  (hint: number of the hinted part, 0 = none)
           cl,     \* client stream state
           fetched,\* sequence of segment ids downloaded
           hist,   \* playlist versions served, in order (the scenario script)
-          adv     \* whether the server moved since the last poll (bounds stuttering)
+          adv,    \* whether the server moved since the last poll (bounds stuttering)
+          reqs    \* Low-Latency: the requests issued so far [kind, id, skip]
 
-vars == <<srv, cl, fetched, hist, adv>>
+vars == <<srv, cl, fetched, hist, adv, reqs>>
 
-Windows == [ms : 0..MaxMS, n : 0..MaxN, end : BOOLEAN]
+Windows == [ms : 0..MaxMS, n : 0..MaxN, end : BOOLEAN, hint : {IF LL THEN 1 ELSE 0}]
 
 FInit ==
   /\ srv \in {w \in Windows : w.ms <= 2}
@@ -35,44 +37,62 @@ FInit ==
   /\ fetched = <<>>
   /\ hist = <<>>
   /\ adv = FALSE
+  /\ reqs = <<>>
 
 \* the live window slides: the tail grows by a, the head drops d (the window never shrinks below its tail)
 ServerAdvance ==
   /\ ~srv.end /\ ~adv
+  /\ ~(LL /\ cl.ll)          \* a Low-Latency client never looks at the segment list again: its evolution is irrelevant
   /\ \E a \in 0..MaxAdvance, d \in 0..MaxAdvance :
        /\ a + d > 0
        /\ srv.n + a - d >= 0 /\ srv.n + a - d <= MaxN
        /\ srv.ms + d <= MaxMS
        /\ srv' = [srv EXCEPT !.ms = srv.ms + d, !.n = srv.n + a - d]
   /\ adv' = TRUE
-  /\ UNCHANGED <<cl, fetched, hist>>
+  /\ UNCHANGED <<cl, fetched, hist, reqs>>
+
+\* Low-Latency: the next part is published (the hint moves on), or the server stops hinting
+ServerPart ==
+  /\ LL /\ srv.hint # 0 /\ ~adv
+  /\ \/ \E k \in 1..2 : srv' = [srv EXCEPT !.hint = srv.hint + k]
+     \/ srv' = [srv EXCEPT !.hint = 0]
+  /\ adv' = TRUE
+  /\ UNCHANGED <<cl, fetched, hist, reqs>>
 
 ServerEnd ==
   /\ ~srv.end
   /\ srv' = [srv EXCEPT !.end = TRUE]
   /\ adv' = TRUE
-  /\ UNCHANGED <<cl, fetched, hist>>
+  /\ UNCHANGED <<cl, fetched, hist, reqs>>
 
 ClientPlaylist ==
   /\ cl.phase = "pl" /\ Len(hist) < MaxPolls
-  /\ LET v == [ms |-> srv.ms, n |-> srv.n, end |-> srv.end, vod |-> Vod, hint |-> 0, ll |-> FALSE, canSkip |-> FALSE] IN
+  /\ LET v == [ms |-> srv.ms, n |-> srv.n, end |-> srv.end, vod |-> Vod, hint |-> srv.hint, ll |-> LL, canSkip |-> CanSkip] IN
        /\ cl' = AfterPlaylist(cl, v)
-       /\ hist' = Append(hist, [ms |-> srv.ms, n |-> srv.n, end |-> srv.end])
+       /\ hist' = Append(hist, [ms |-> srv.ms, n |-> srv.n, end |-> srv.end, hint |-> srv.hint])
+  /\ reqs' = Append(reqs, [kind |-> "pl", id |-> srv.hint, skip |-> WantsSkip(cl)])
   /\ adv' = FALSE
   /\ UNCHANGED <<srv, fetched>>
 
 ClientInit ==
   /\ cl.phase = "init"
   /\ cl' = AfterInit(cl)
-  /\ UNCHANGED <<srv, fetched, hist, adv>>
+  /\ UNCHANGED <<srv, fetched, hist, adv, reqs>>
 
 ClientSegment ==
   /\ cl.phase = "seg"
   /\ cl' = AfterSeg(cl)
   /\ fetched' = Append(fetched, cl.tgt)
-  /\ UNCHANGED <<srv, hist, adv>>
+  /\ UNCHANGED <<srv, hist, adv, reqs>>
 
-FNext == ServerAdvance \/ ServerEnd \/ ClientPlaylist \/ ClientInit \/ ClientSegment
+\* runLowLatency: download the preload hint of the playlist in hand, then the playlist again
+ClientHint ==
+  /\ cl.phase = "hint"
+  /\ cl' = AfterHint(cl)
+  /\ reqs' = Append(reqs, [kind |-> "hint", id |-> cl.tgt, skip |-> FALSE])
+  /\ UNCHANGED <<srv, fetched, hist, adv>>
+
+FNext == ServerAdvance \/ ServerEnd \/ ServerPart \/ ClientPlaylist \/ ClientInit \/ ClientSegment \/ ClientHint
 FSpec == FInit /\ [][FNext]_vars
 
 -----------------------------------------------------------------------------
@@ -80,7 +100,7 @@ FSpec == FInit /\ [][FNext]_vars
 Consecutive == \A i \in 1..(Len(fetched) - 1) : fetched[i + 1] = fetched[i] + 1
 
 StartsRight ==
-  Len(fetched) > 0 =>
+  (~cl.ll /\ Len(fetched) > 0) =>
      LET v == hist[1] IN
      IF Vod THEN fetched[1] = v.ms ELSE fetched[1] = v.ms + v.n - InitialDistance
 
@@ -104,9 +124,21 @@ ErrorsJustified ==
     \/ cl.errc = "notenough" /\ cl.cur = None /\ ~Vod /\ cl.pl.n < InitialDistance
     \/ cl.errc = "nosegments" /\ cl.cur = None /\ Vod /\ cl.pl.n = 0
     \/ cl.errc = "unparsable" /\ cl.pl.n = 0
+    \/ cl.errc = "hintgone" /\ cl.ll /\ cl.pl.hint = 0
 
 \* one playlist download between two segment downloads
-ReloadBetween == Len(hist) >= Len(fetched) /\ Len(hist) <= Len(fetched) + 1
+ReloadBetween == cl.ll \/ (Len(hist) >= Len(fetched) /\ Len(hist) <= Len(fetched) + 1)
+
+\* Low-Latency: requests alternate playlist / hint, each hint is the one the preceding playlist advertised, regular segments are
+\* never fetched, delta updates are asked for exactly when CAN-SKIP-UNTIL was advertised (never on the first playlist)
+LLFollowsHints ==
+  cl.ll => /\ fetched = <<>>
+        /\ \A i \in 1..Len(reqs) :
+              /\ reqs[i].kind = (IF i % 2 = 1 THEN "pl" ELSE "hint")
+              /\ (reqs[i].kind = "hint" => reqs[i].id = reqs[i - 1].id /\ reqs[i].id # 0)
+              /\ (reqs[i].kind = "pl" => reqs[i].skip = (i > 1 /\ CanSkip))
+LLStopsWithoutHint ==
+  (cl.ll /\ cl.phase = "err" /\ cl.errc = "hintgone") => (reqs # <<>> /\ reqs[Len(reqs)].kind = "pl" /\ reqs[Len(reqs)].id = 0)
 
 -----------------------------------------------------------------------------
 (* Script generation: every maximal history (client stopped or history bound reached) is printed once *)
